@@ -85,25 +85,24 @@ IsNumber(x) == x.t \in {"i", "big", "r", "f"}
 IsAtomicX(x) == x.t \in {"a", "i", "big", "r", "f"}
 
 (* ---- names ---- *)
-AsciiOrd(ch) ==
-  CASE ch = "a" -> 97  [] ch = "b" -> 98  [] ch = "c" -> 99  [] ch = "d" -> 100 [] ch = "e" -> 101
-    [] ch = "f" -> 102 [] ch = "g" -> 103 [] ch = "h" -> 104 [] ch = "i" -> 105 [] ch = "j" -> 106
-    [] ch = "k" -> 107 [] ch = "l" -> 108 [] ch = "m" -> 109 [] ch = "n" -> 110 [] ch = "o" -> 111
-    [] ch = "p" -> 112 [] ch = "q" -> 113 [] ch = "r" -> 114 [] ch = "s" -> 115 [] ch = "t" -> 116
-    [] ch = "u" -> 117 [] ch = "v" -> 118 [] ch = "w" -> 119 [] ch = "x" -> 120 [] ch = "y" -> 121
-    [] ch = "z" -> 122 [] ch = "_" -> 95  [] ch = "-" -> 45  [] ch = "." -> 46  [] ch = "[" -> 91
-    [] ch = "]" -> 93  [] ch = "<" -> 60  [] ch = ">" -> 62  [] ch = "=" -> 61  [] ch = "," -> 44
-    [] ch = "+" -> 43  [] ch = "*" -> 42  [] ch = "/" -> 47  [] ch = "{" -> 123 [] ch = "}" -> 125
-    [] ch = "|" -> 124 [] ch = " " -> 32  [] ch = "!" -> 33  [] ch = ";" -> 59  [] ch = ":" -> 58
-    [] ch = "$" -> 36  [] ch = "^" -> 94  [] ch = "@" -> 64  [] ch = "#" -> 35  [] ch = "&" -> 38
-    [] ch = "0" -> 48  [] ch = "1" -> 49  [] ch = "2" -> 50  [] ch = "3" -> 51  [] ch = "4" -> 52
-    [] ch = "5" -> 53  [] ch = "6" -> 54  [] ch = "7" -> 55  [] ch = "8" -> 56  [] ch = "9" -> 57
-    [] ch = "A" -> 65  [] ch = "B" -> 66  [] ch = "C" -> 67  [] ch = "D" -> 68  [] ch = "E" -> 69
-    [] ch = "F" -> 70  [] ch = "G" -> 71  [] ch = "H" -> 72  [] ch = "I" -> 73  [] ch = "J" -> 74
-    [] ch = "K" -> 75  [] ch = "L" -> 76  [] ch = "M" -> 77  [] ch = "N" -> 78  [] ch = "O" -> 79
-    [] ch = "P" -> 80  [] ch = "Q" -> 81  [] ch = "R" -> 82  [] ch = "S" -> 83  [] ch = "T" -> 84
-    [] ch = "U" -> 85  [] ch = "V" -> 86  [] ch = "W" -> 87  [] ch = "X" -> 88  [] ch = "Y" -> 89
-    [] ch = "Z" -> 90
+(* code points of the ASCII characters used in names (a function: TLC evaluates it once) *)
+AsciiTab ==
+  ("a" :> 97) @@ ("b" :> 98) @@ ("c" :> 99) @@ ("d" :> 100) @@ ("e" :> 101) @@ ("f" :> 102)
+  @@ ("g" :> 103) @@ ("h" :> 104) @@ ("i" :> 105) @@ ("j" :> 106) @@ ("k" :> 107)
+  @@ ("l" :> 108) @@ ("m" :> 109) @@ ("n" :> 110) @@ ("o" :> 111) @@ ("p" :> 112)
+  @@ ("q" :> 113) @@ ("r" :> 114) @@ ("s" :> 115) @@ ("t" :> 116) @@ ("u" :> 117)
+  @@ ("v" :> 118) @@ ("w" :> 119) @@ ("x" :> 120) @@ ("y" :> 121) @@ ("z" :> 122) @@ ("_" :> 95)
+  @@ ("-" :> 45) @@ ("." :> 46) @@ ("[" :> 91) @@ ("]" :> 93) @@ ("<" :> 60) @@ (">" :> 62)
+  @@ ("=" :> 61) @@ ("," :> 44) @@ ("+" :> 43) @@ ("*" :> 42) @@ ("/" :> 47) @@ ("{" :> 123)
+  @@ ("}" :> 125) @@ ("|" :> 124) @@ (" " :> 32) @@ ("!" :> 33) @@ (";" :> 59) @@ (":" :> 58)
+  @@ ("$" :> 36) @@ ("^" :> 94) @@ ("@" :> 64) @@ ("#" :> 35) @@ ("&" :> 38) @@ ("0" :> 48)
+  @@ ("1" :> 49) @@ ("2" :> 50) @@ ("3" :> 51) @@ ("4" :> 52) @@ ("5" :> 53) @@ ("6" :> 54)
+  @@ ("7" :> 55) @@ ("8" :> 56) @@ ("9" :> 57) @@ ("A" :> 65) @@ ("B" :> 66) @@ ("C" :> 67)
+  @@ ("D" :> 68) @@ ("E" :> 69) @@ ("F" :> 70) @@ ("G" :> 71) @@ ("H" :> 72) @@ ("I" :> 73)
+  @@ ("J" :> 74) @@ ("K" :> 75) @@ ("L" :> 76) @@ ("M" :> 77) @@ ("N" :> 78) @@ ("O" :> 79)
+  @@ ("P" :> 80) @@ ("Q" :> 81) @@ ("R" :> 82) @@ ("S" :> 83) @@ ("T" :> 84) @@ ("U" :> 85)
+  @@ ("V" :> 86) @@ ("W" :> 87) @@ ("X" :> 88) @@ ("Y" :> 89) @@ ("Z" :> 90)
+AsciiOrd(ch) == AsciiTab[ch]
 (* aliases of the non-ASCII names used by the models: a-umlaut, e-acute, euro sign (3 UTF-8     *)
 (* bytes), U+FFFD (3 bytes, above the UTF-16 surrogates), U+1F600 (4 bytes), "e-acute a"         *)
 NonAsciiTab ==
